@@ -29,7 +29,9 @@ base, all single substitutions over {0-9 + - . : SPACE Z z / NUL A 0xB0 0xFF}, a
 tags, and all double substitutions over {0-9 + - . : SPACE Z z} and all triple substitutions on 4 (quick) / all 40 (thorough) bases; oracle \
 three-valued: must-accept (fixed width, all digits, Z, real date/time, second<=59, year>=1) => instant equals the calendar \
 model with pivot 50; must-reject (wrong tag/width, non-digit, no Z, month 0/13+, day 0/past month end, hour>=24, \
-minute>=60, second>=61); don't-care (year 0000, second 60); non-trivial = candidate differing from its base. validity-subsecond: random windows \
+minute>=60, second>=61); don't-care (year 0000, second 60); non-trivial = candidate differing from its base. validity-now: Validity::verify() (evaluation time = the clock) on windows placed relative to an instant read just before the call: comfortably inside, \
+ended 1 ns .. 1 s before (also within the running clock second), starting 1 ns .. 1.3 s later (decided by a second clock reading after the call, skipped if the clock got there first), long expired, future; \
+validity-subsecond: random windows \
 and evaluation times at nanosecond resolution placed 0, +-1 ns, +-1 ms, +-0.5 s, +-0.999999999 s, +-1 s around either end \
 (Time::now() has a sub-second part), oracle = lexicographic (seconds, nanoseconds) comparison. validity: \
 complete enumeration of (not-before, not-after) x now and x second window over a boundary-dense instant set (year 1, \
@@ -742,6 +744,78 @@ fn run_subsec(c: &SubSec, obs: &mut Obs) -> CheckResult {
     Ok(())
 }
 
+//------------ Validity::verify (evaluation time = the clock) --------------------------
+
+/// `Validity::verify()` is `verify_at(Time::now())`. The verdict asked for
+/// never depends on what the clock shows: windows are placed relative to an
+/// instant read just before the call (the clock only moves forward from
+/// there), and where the library's later reading could legitimately change
+/// the answer the case is decided by a second reading afterwards or skipped.
+#[derive(Clone, Debug, Serialize, Deserialize)]
+pub struct NowCase {
+    pub kind: u8,
+    /// distance of the near edge from "now", nanoseconds (1 ..= 999_999_999 for the near kinds)
+    pub near_ns: u32,
+    /// distance of the far edge, seconds
+    pub far_s: u32,
+}
+
+fn now_strategy(_: Tier) -> BoxedStrategy<NowCase> {
+    (0u8..5, prop_oneof![2 => Just(1u32), 2 => 1u32..1_000, 3 => 1u32..1_000_000_000, 2 => 900_000_000u32..1_000_000_000], 2u32..400_000_000)
+        .prop_map(|(kind, near_ns, far_s)| NowCase { kind, near_ns, far_s })
+        .boxed()
+}
+
+fn run_now(c: &NowCase, obs: &mut Obs) -> CheckResult {
+    use chrono::TimeDelta;
+    let t0 = Utc::now();
+    let near = TimeDelta::nanoseconds(c.near_ns.clamp(1, 999_999_999) as i64);
+    let far = TimeDelta::try_seconds(c.far_s as i64).ok_or_else(|| Fail::new("generator: far edge"))?;
+    let two = TimeDelta::try_seconds(2).unwrap();
+    match c.kind % 5 {
+        0 => {
+            // comfortably inside
+            obs.label("now-inside");
+            let v = Validity::new(Time::new(t0 - far), Time::new(t0 + far));
+            ensure_sig!(v.verify().is_ok(), "validity-verify-now", "verify() rejects a window from {} s ago to {} s ahead", c.far_s, c.far_s);
+        }
+        1 => {
+            // ended less than a second ago (possibly within the current clock second)
+            obs.label("now-just-expired");
+            obs.nontrivial();
+            let v = Validity::new(Time::new(t0 - far), Time::new(t0 - near));
+            ensure_sig!(v.verify().is_err(), "validity-verify-now", "verify() accepts a window that ended {} ns before the call", c.near_ns);
+            obs.label_if((t0 - near).timestamp() == t0.timestamp(), "now-same-clock-second");
+        }
+        2 => {
+            // starts in less than a second: rejected, unless the clock got there first
+            let nb = t0 + near + TimeDelta::milliseconds(if c.near_ns % 2 == 0 { 0 } else { 300 });
+            let v = Validity::new(Time::new(nb), Time::new(t0 + far + two));
+            let got = v.verify();
+            let t1 = Utc::now();
+            if t1 < nb {
+                obs.label("now-not-yet-valid");
+                obs.nontrivial();
+                ensure_sig!(got.is_err(), "validity-verify-now", "verify() accepts a window that starts {} ns after the call returned", (nb - t1).num_nanoseconds().unwrap_or(0));
+                obs.label_if(nb.timestamp() == t1.timestamp(), "now-same-clock-second");
+            } else {
+                obs.label("now-raced");
+            }
+        }
+        3 => {
+            obs.label("now-long-expired");
+            let v = Validity::new(Time::new(t0 - far - two), Time::new(t0 - two));
+            ensure_sig!(v.verify().is_err(), "validity-verify-now", "verify() accepts a window that ended 2 s ago");
+        }
+        _ => {
+            obs.label("now-future");
+            let v = Validity::new(Time::new(t0 + far), Time::new(t0 + far + far));
+            ensure_sig!(v.verify().is_err(), "validity-verify-now", "verify() accepts a window starting in {} s", c.far_s);
+        }
+    }
+    Ok(())
+}
+
 //------------ big numbers ------------------------------------------------------
 
 /// 160-bit unsigned, five 32-bit limbs, most significant first.
@@ -1201,6 +1275,14 @@ pub fn property() -> Property {
                 cases: |t| t.pick(1_000_000, 20_000_000),
                 run: run_subsec,
                 floors: &[("subsecond-near-edge", 0.3), ("inside", 0.2), ("outside", 0.2), ("trim-same-second-bounds", 0.1)],
+            }
+            .boxed(),
+            PropSub {
+                name: "validity-now",
+                strategy: now_strategy,
+                cases: |t| t.pick(60_000, 1_000_000),
+                run: run_now,
+                floors: &[("now-just-expired", 0.1), ("now-not-yet-valid", 0.1), ("now-same-clock-second", 0.05)],
             }
             .boxed(),
             EnumSub { name: "serial-enum", count: count_serial_enum, make: make_serial_enum, run: run_serial_enum, exhaustive: true }.boxed(),
